@@ -33,6 +33,7 @@ TAGS = {
     25: 'lcs.diff on distributions (update_random_variables) differs from the model',
     26: 'the calls made by update_random_variable_records (update / remove / create_omega_single / create_omega_block, in order) differ from the planned actions of the model',
     27: 'the record create_omega_single / create_omega_block returned differs from the model',
+    28: 'the record OmegaRecord.remove returned (record without BLOCK) differs from the model',
     212: 'guard_plan (the guard of update_thetas_realises) disagrees with the conjuncts evaluated one by one',
     31: 're-reading the regenerated code raises ($OMEGA/$SIGMA edit)',
     32: 're-read OMEGA/SIGMA values or FIX differ from the in-memory model',
@@ -48,7 +49,7 @@ TAGS = {
     47: 'a structural random-effect edit crashes with an internal error',
     48: 're-read FIX flags inside a joint distribution differ from the in-memory model (structural edit)',
 }
-CORR = (1, 2, 4, 5, 6, 21, 22, 23, 24, 25, 26, 27, 212)
+CORR = (1, 2, 4, 5, 6, 21, 22, 23, 24, 25, 26, 27, 28, 212)
 ORACLE = (11, 12, 13, 14, 15, 31, 32, 33, 34, 35, 41, 42, 43, 44, 45, 46, 47, 48)
 GUARD_NAMES = {201: 'g_plain_layout', 202: 'g_xn_uniform', 203: 'g_xn_nofix', 205: 'g_repr',
                206: 'g_count', 207: 'g_rm_single', 208: 'g_removed_unnamed', 209: 'g_names', 210: 'g_bounds_canonical', 211: 'g_order',
